@@ -1,14 +1,177 @@
-(* C06 - statements only; see Proofs/.  (first theorems; the full set is being added) *)
-From Coq Require Import List Bool.
-From GR Require Import Base.Bytes Base.Res Codec.Schema Codec.Tracker.
+(* C06 - required-field accounting and unknown-field tolerance of the JSON tree decoder (statements only; proofs in
+   Proofs/MissingProofs.v).
+
+   Vocabulary (all defined in Proofs/MissingProofs.v, independent of the tracker and of the document order):
+     wf_schema e             distinct JSON names over a record and its (transitive) includes; includes are records, acyclic
+     well_shaped e pF f t d  d has the shape of t down to depth f: objects for records / maps / unions (JSON null = empty object
+                             where an object is expected), arrays for arrays, leaves that parse, no duplicate key in an object,
+                             exactly one known non-null member in a union; unknown record fields of ANY shape are allowed
+     missing_spec e f t d sc the specification of the missing set: every Required field (own or inherited, flattened) with no
+                             non-null value, at every position reached through present values, rendered by scope_string
+     missing_at e t d sc p   the same as an inductive relation (no fuel)
+     decode_spec .. f r t d  the decoded value, computed field by field in SCHEMA order (never looks at unknown keys or at the
+                             order of an object)
+   excl = ps_empty throughout (exclusion is C07).  Fuel: the hypotheses [well_shaped ... fuel ...] carry the depth bound. *)
+From Coq.Strings Require Import Byte String.
+From Coq Require Import List Bool Arith ZArith NArith Permutation.
+From GR Require Import Base.Bytes Base.Res Codec.Schema Codec.Doc Codec.Json Codec.Tracker Codec.Decode Proofs.MissingProofs.
 Import ListNotations.
 
-(* the list of missing fields raised to the caller is sorted (sort.Strings) and holds exactly the recorded paths *)
-Theorem sort_bytes_length_06 : forall l, length (sort_bytes l) = length l.
-Proof.
-  assert (Hi : forall k l, length (insert_bytes k l) = S (length l)).
-  { intros k l. induction l as [|x r IH]; cbn [insert_bytes length]; [reflexivity|].
-    destruct (bytes_ltb x k); cbn [length]; [rewrite IH|]; reflexivity. }
-  induction l as [|k r IH]; cbn [sort_bytes length]; [reflexivity|]. rewrite Hi, IH. reflexivity.
-Qed.
-Print Assumptions sort_bytes_length_06.
+(* ---- the decoder, exactly: value and recorded paths, at any depth and under any scope ---- *)
+Theorem decJ_exact : forall e wildcard ignore parseF, wf_schema e ->
+  forall fuel top t d tr,
+    well_shaped e parseF fuel t d ->
+    t_scope tr <> [SKey []] -> (t_scope tr = [] -> keys_nonempty (entries_of d)) ->
+    exists tr',
+      decJ e wildcard ps_empty ignore parseF fuel top t d tr
+      = Ok (decode_spec e wildcard ignore parseF fuel (raises e fuel top t d tr) t d, tr') /\
+      t_scope tr' = t_scope tr /\
+      Permutation (t_missing tr') (t_missing tr ++ missing_spec e fuel t d (t_scope tr)).
+Proof. exact MissingProofs.decJ_exact. Qed.
+
+(* ---- missing_exact: a record at the start of the input raises exactly the specified paths, sorted, once, and still returns
+   the partially populated value; nothing is raised when nothing is missing ---- *)
+Theorem missing_exact : forall e wildcard ignore parseF, wf_schema e ->
+  forall fuel t data jd,
+    is_record e t = true -> top_ok data jd -> well_shaped e parseF fuel t jd ->
+    decode_json e wildcard ps_empty ignore parseF fuel t data =
+    match missing_spec e fuel t jd [] with
+    | [] => DOk (decode_spec e wildcard ignore parseF fuel false t jd)
+    | ms => DMissing (sort_bytes ms) (decode_spec e wildcard ignore parseF fuel true t jd)
+    end.
+Proof. exact MissingProofs.missing_exact. Qed.
+
+Theorem missing_exact_iff : forall e wildcard ignore parseF, wf_schema e ->
+  forall fuel t data jd fs v,
+    is_record e t = true -> top_ok data jd -> well_shaped e parseF fuel t jd ->
+    (decode_json e wildcard ps_empty ignore parseF fuel t data = DMissing fs v <->
+     fs = sort_bytes (missing_spec e fuel t jd []) /\ fs <> [] /\ v = decode_spec e wildcard ignore parseF fuel true t jd).
+Proof. exact MissingProofs.missing_exact_iff. Qed.
+
+Theorem missing_none_iff : forall e wildcard ignore parseF, wf_schema e ->
+  forall fuel t data jd,
+    is_record e t = true -> top_ok data jd -> well_shaped e parseF fuel t jd ->
+    (missing_spec e fuel t jd [] = [] <->
+     decode_json e wildcard ps_empty ignore parseF fuel t data = DOk (decode_spec e wildcard ignore parseF fuel false t jd)).
+Proof. exact MissingProofs.missing_none_iff. Qed.
+
+(* the list raised does not depend on the order in which the paths were recorded *)
+Theorem sort_bytes_perm_invariant : forall l1 l2, Permutation l1 l2 -> sort_bytes l1 = sort_bytes l2.
+Proof. exact MissingProofs.sort_bytes_perm_invariant. Qed.
+
+(* ---- the exception (finding D33): only a RECORD at the start of the input raises ---- *)
+Definition missing_exact_full : Prop := MissingProofs.missing_exact_full.   (* missing_exact without [is_record e t = true] *)
+
+Theorem top_non_record_never_raises : forall e wildcard ignore parseF, wf_schema e ->
+  forall fuel t data jd,
+    is_record e t = false -> top_ok data jd -> well_shaped e parseF fuel t jd ->
+    decode_json e wildcard ps_empty ignore parseF fuel t data
+    = DOk (decode_spec e wildcard ignore parseF fuel (negb (is_nilb (missing_spec e fuel t jd []))) t jd).
+Proof. exact MissingProofs.top_non_record_never_raises. Qed.
+
+Theorem missing_exact_full_refuted : ~ missing_exact_full.
+Proof. exact MissingProofs.missing_exact_full_refuted. Qed.
+
+Theorem top_level_non_record_witness :
+  decode_json c06_env c06_star ps_empty 0 c06_pf 8 (TArray (TRef 0)) (c06_b "[{},{""a"":1}]"%string)
+  = DOk (VArr [VRec [] [Some (VInt 0); None; Some (VInt 7)]; VRec [] [Some (VInt 1); None; Some (VInt 7)]])
+  /\ missing_spec c06_env 8 (TArray (TRef 0)) (c06_json "[{},{""a"":1}]"%string) [] = [c06_b "[0].a"%string]
+  /\ decode_json c06_env c06_star ps_empty 0 c06_pf 8 (TRef 2) (c06_b "{""t.Inner"":{}}"%string)
+     = DOk (VUnion [Some (VRec [] [Some (VInt 0); None; Some (VInt 7)]); None])
+  /\ missing_spec c06_env 8 (TRef 2) (c06_json "{""t.Inner"":{}}"%string) [] = [c06_b "t.Inner.a"%string].
+Proof. exact MissingProofs.top_level_non_record_witness. Qed.
+
+(* ---- path rendering: the side condition of decJ_exact on the lone empty key is necessary ---- *)
+Definition paths_exact_full : Prop := MissingProofs.paths_exact_full.       (* decJ_exact without the two scope hypotheses *)
+
+Theorem paths_exact_full_refuted : ~ paths_exact_full.
+Proof. exact MissingProofs.paths_exact_full_refuted. Qed.
+
+(* ---- only Required fields, only below present values: optional and defaulted fields are never reported ---- *)
+Theorem missing_spec_sound : forall e fuel t d sc p, In p (missing_spec e fuel t d sc) -> missing_at e t d sc p.
+Proof. exact MissingProofs.missing_spec_sound. Qed.
+
+Theorem optional_default_never_reported : forall e wildcard ignore parseF, wf_schema e ->
+  forall fuel top t d tr v tr',
+    well_shaped e parseF fuel t d -> t_scope tr <> [SKey []] -> (t_scope tr = [] -> keys_nonempty (entries_of d)) ->
+    decJ e wildcard ps_empty ignore parseF fuel top t d tr = Ok (v, tr') ->
+    forall p, In p (t_missing tr') ->
+      In p (t_missing tr) \/
+      (missing_at e t d (t_scope tr) p /\
+       exists rest n incs fs fd,
+         lookup e n = Some (DRecord incs fs) /\ In fd (fields_of e n) /\ f_opt fd = Required /\
+         p = scope_string ((t_scope tr ++ rest) ++ [SKey (f_name fd)])).
+Proof. exact MissingProofs.optional_default_never_reported. Qed.
+
+(* ---- the result is a function of the KNOWN CONTENT of the document ----
+   sim e fuel t d1 d2 ("same known content at type t"): equal leaves; arrays related item by item; map and union objects related
+   entry by entry up to a permutation; record objects only required to agree, field by field (own and inherited), on the
+   non-null value under each field name - whatever else the two objects contain, in whatever order. *)
+Theorem same_content_same_result : forall e wildcard ignore parseF, wf_schema e ->
+  forall fuel top t d1 d2 tr,
+    well_shaped e parseF fuel t d1 -> sim e fuel t d1 d2 ->
+    t_scope tr <> [SKey []] ->
+    (t_scope tr = [] -> keys_nonempty (entries_of d1)) -> (t_scope tr = [] -> keys_nonempty (entries_of d2)) ->
+    exists v tr1 tr2,
+      decJ e wildcard ps_empty ignore parseF fuel top t d1 tr = Ok (v, tr1) /\
+      decJ e wildcard ps_empty ignore parseF fuel top t d2 tr = Ok (v, tr2) /\
+      t_scope tr1 = t_scope tr2 /\ Permutation (t_missing tr1) (t_missing tr2) /\
+      sort_bytes (t_missing tr1) = sort_bytes (t_missing tr2).
+Proof. exact MissingProofs.same_content_same_result. Qed.
+
+(* ---- order_independent: jperm = the congruence generated by permuting the entries of objects, at any depth ---- *)
+Theorem order_independent : forall e parseF wildcard ignore, wf_schema e ->
+  forall fuel top t d1 d2 tr,
+    well_shaped e parseF fuel t d1 -> jperm d1 d2 ->
+    t_scope tr <> [SKey []] -> (t_scope tr = [] -> keys_nonempty (entries_of d1)) ->
+    exists v tr1 tr2,
+      decJ e wildcard ps_empty ignore parseF fuel top t d1 tr = Ok (v, tr1) /\
+      decJ e wildcard ps_empty ignore parseF fuel top t d2 tr = Ok (v, tr2) /\
+      t_scope tr1 = t_scope tr2 /\ Permutation (t_missing tr1) (t_missing tr2) /\
+      sort_bytes (t_missing tr1) = sort_bytes (t_missing tr2).
+Proof. exact MissingProofs.order_independent. Qed.
+
+Theorem jperm_sim : forall e parseF fuel t d1 d2, well_shaped e parseF fuel t d1 -> jperm d1 d2 -> sim e fuel t d1 d2.
+Proof. exact MissingProofs.jperm_sim. Qed.
+
+(* ---- unknown_fields_skipped: an extra entry of ANY shape under a key that is no field of the record (own or inherited), at
+   any position of the object, at any depth (the record is decoded under an arbitrary scope / tracker) ---- *)
+Theorem unknown_fields_skipped : forall e parseF wildcard ignore, wf_schema e ->
+  forall n incs fs f top l1 l2 k x tr,
+    lookup e n = Some (DRecord incs fs) -> field_of e n k = None -> ~ In k (map fst (l1 ++ l2)) ->
+    well_shaped e parseF (S f) (TRef n) (JObj (l1 ++ l2)) ->
+    t_scope tr <> [SKey []] -> (t_scope tr = [] -> keys_nonempty (l1 ++ l2) /\ k <> []) ->
+    exists v tr1 tr2,
+      decJ e wildcard ps_empty ignore parseF (S f) top (TRef n) (JObj (l1 ++ l2)) tr = Ok (v, tr1) /\
+      decJ e wildcard ps_empty ignore parseF (S f) top (TRef n) (JObj (l1 ++ (k, x) :: l2)) tr = Ok (v, tr2) /\
+      t_scope tr1 = t_scope tr2 /\ Permutation (t_missing tr1) (t_missing tr2) /\
+      sort_bytes (t_missing tr1) = sort_bytes (t_missing tr2).
+Proof. exact MissingProofs.unknown_fields_skipped. Qed.
+
+(* ---- non-vacuity ---- *)
+Example c06_nonvacuous :
+  wf_schema c06_env /\ is_record c06_env (TRef 1) = true /\ top_ok (c06_b c06_text) c06_doc /\
+  well_shaped c06_env c06_pf 8 (TRef 1) c06_doc /\
+  sort_bytes (missing_spec c06_env 8 (TRef 1) c06_doc []) = map c06_b ["a"; "l[1].a"; "l[2].a"; "m.k.a"; "u.t.Inner.a"; "x"]%string /\
+  (exists fs v, decode_json c06_env c06_star ps_empty 0 c06_pf 8 (TRef 1) (c06_b c06_text) = DMissing fs v /\
+                fs = map c06_b ["a"; "l[1].a"; "l[2].a"; "m.k.a"; "u.t.Inner.a"; "x"]%string) /\
+  decode_json c06_env c06_star ps_empty 0 c06_pf 8 (TRef 1) (c06_b c06_text_perm)
+  = decode_json c06_env c06_star ps_empty 0 c06_pf 8 (TRef 1) (c06_b c06_text).
+Proof. exact MissingProofs.c06_nonvacuous. Qed.
+
+Print Assumptions decJ_exact.
+Print Assumptions missing_exact.
+Print Assumptions missing_exact_iff.
+Print Assumptions missing_none_iff.
+Print Assumptions sort_bytes_perm_invariant.
+Print Assumptions top_non_record_never_raises.
+Print Assumptions missing_exact_full_refuted.
+Print Assumptions top_level_non_record_witness.
+Print Assumptions paths_exact_full_refuted.
+Print Assumptions missing_spec_sound.
+Print Assumptions optional_default_never_reported.
+Print Assumptions same_content_same_result.
+Print Assumptions order_independent.
+Print Assumptions jperm_sim.
+Print Assumptions unknown_fields_skipped.
+Print Assumptions c06_nonvacuous.
